@@ -64,6 +64,7 @@ fn check_eq(ctx: &mut Ctx, leaves: &[[u8; 32]], style: u64) {
 pub fn run(ctx: &mut Ctx) {
     // phase 1: EVERY leaf count 0..=bound, four leaf styles each (exhaustive in the count)
     let bound = ctx.budget(600, 5000);
+    ctx.seen("exhaustive_subspaces", "C18: every leaf count 0..=bound x 6 leaf styles; every single-leaf change and adjacent swap for every count up to the sensitivity bound");
     ctx.phase("all-counts", bound + 1, |ctx, n| {
         for style in 0..6u64 {
             let leaves = leaves_of(&mut ctx.rng, n as usize, style);
